@@ -15,6 +15,11 @@ FILES = {
     "synerr.c": "int x = ;\nint main(void) { return 0; }\n",
     "semerr.c": "int x;\nvoid f(void) { x.y; }\n",
     "amb.c": "void f(void) { T * x; /** doc */ a(b); }\n",
+    # valid files on which the disambiguation modes give different verdicts (the guideline alone takes 'a * b;' for a declaration and
+    # '(a) - b' for a cast: errors; the algorithm sees the variable): the mode a value selects must be the one it names
+    "ambmul.c": "int a, b;\nvoid f(void) { a * b; }\n",
+    "ambcast.c": "int a, b, c;\nvoid f(void) { c = (a) - b; }\n",
+    "ambtype.c": "typedef int T;\nvoid f(void) { T * x; T (y); x = &y; }\n",
     "pre.i": "typedef int T; T y;\n",
     # mixtures of severities within one phase (the exit status must not depend on their order)
     "synerrwarn.c": "int x = ;\nint a[2] = { [0] 1 };\n",
@@ -189,7 +194,7 @@ def run(ctx):
         ctx.cov.update({
             "evaluations": len(cases), "distinct_nontrivial": len({tuple(c[0]) for c in cases[:ndoc] if True}),
             "traces_validated_against_impl": len(cases), "exhaustive": True,
-            "rule": "real cnip executable on the full cross product {-std: 6 values + default} x {-disambiguation: 4 + default} x {-comment: 3 + default} x {-fsyntax-only} x {-dump-ast} x -pp none x %d files (valid, syntax error, semantic error, ambiguity+doc comment, preprocessed .i, error/warning mixtures in both orders per phase) = %d runs (exhaustive); -pp s / r / default through gcc: %s; multi-file and option-override cases; %d malformed or undocumented argument vectors (fixed list + seeded random); non-trivial = distinct documented command lines"
+            "rule": "real cnip executable on the full cross product {-std: 6 values + default} x {-disambiguation: 4 + default} x {-comment: 3 + default} x {-fsyntax-only} x {-dump-ast} x -pp none x %d files (valid, syntax error, semantic error, ambiguity+doc comment, three valid files on which the disambiguation modes differ, preprocessed .i, error/warning mixtures in both orders per phase) = %d runs (exhaustive); -pp s / r / default through gcc: %s; multi-file and option-override cases; %d malformed or undocumented argument vectors (fixed list + seeded random); non-trivial = distinct documented command lines"
                     % (len(FILES), npp_none, "160 sampled" if ctx.quick else "complete (%d)" % len(pp_cases), len(cases) - ndoc),
             "samples": [" ".join(cases[k][0]) for k in (3, npp_none // 2, npp_none + 1, ndoc + 3, len(cases) - 1)],
         })
